@@ -87,7 +87,7 @@ func main() {
 		return []sched.Scenario{{Name: "floor-get-vs-put-and-delete", Cfg: vsched.Config{MaxSteps: 50000}, MaxDev: 3, Body: floorBody()}}
 	}
 	keep := map[string]bool{"leader-state-not-fold-of-log": true, "apply-out-of-order": true, "response-mismatch": true,
-		"acked-write-missing": true, "duplicate-offset": true, "committed-entry-not-applied": true, "harness-setup": true, "floor-get-answer-never-true": true}
+		"acked-write-missing": true, "duplicate-offset": true, "committed-entry-not-applied": true, "harness-setup": true, "floor-get-answer-never-true": true, "write-acknowledged-without-quorum": true}
 	os.Exit(pipeh.Main("C02", os.Getenv("VERIF_STAGE2") != "", keep,
 		"every schedule of 2-3 writers colliding on one key, the WAL sync thread, follower cursors and ack receivers with at most max_dev non-default scheduling choices on the real leader controller; at quiescence the leader's database must equal the fold of its committed log and every writer holds the response of its own request"))
 }
